@@ -464,7 +464,7 @@ def gen_histories(ctx: Ctx, deep: bool):
             else:
                 ranks = mixed
             if (not kw["image_space_center_crop"] and kw["random_crop_sampler_type"] == "gaussian" and rng.random() < 0.5
-                    and form != "key" and len(set(ranks)) == 1 and (ranks[0] == 4 or form in ("str_tuple", "str_list") or three)):
+                    and form != "key" and len(set(ranks)) == 1 and (ranks[0] == 4 or three)):
                 # one sigma per entry of the RESOLVED crop shape (2-element list/tuple crops grow a slice entry on 5-D data)
                 kw["random_crop_sampler_gaussian_sigma"] = [rng.choice([0.5, 1.0, 2.5]) for _ in crop]
             samples = []
